@@ -59,6 +59,13 @@ Record node := Node {
   nd_retry_on : bool             (* Once(SchedRefJoinRetry) pending *)
 }.
 
+Global Instance view_eq_dec : EqDecision view.
+Proof. solve_decision. Defined.
+Global Instance cfg_eq_dec : EqDecision cfg.
+Proof. solve_decision. Defined.
+Global Instance node_eq_dec : EqDecision node.
+Proof. solve_decision. Defined.
+
 Definition nd_addr (n : node) : addr := c_addr (nd_cfg n).
 Definition nd_id (n : node) : list N := c_id (nd_cfg n).
 
@@ -546,3 +553,138 @@ Definition fault_free (s : step) : bool :=
   | SRetry _ asks => forallb snd asks
   | _ => false
   end.
+
+(** * The canonical fair round (the fault-free phase as a deterministic scheduler) and the witness schedules
+
+    [auto_round t w]: at wall clock [t] every running node (ascending address) whose gossip loop is registered
+    ticks; everything in flight is delivered (always packet 0, first MemberByAddress candidate); every node whose
+    failure-detection loop is registered ticks; every node with a pending join retry retries (all Asks go
+    through); everything in flight is delivered.  The harness has the same driver (autoRound in
+    harness/cmd/gossip/scen.go) and replays the witness schedules below on the real NodeActors. *)
+
+Notation sched := (list (Z * step)).
+
+Definition running_addrs (w : world) : list addr := isort lex_le (map fst (map_to_list (w_nodes w))).
+
+Definition first_choice (w : world) (k : N) : option (list N) :=
+  match w_net w !! N.to_nat k with
+  | Some p => match w_nodes w !! p_dst p with
+              | Some n => match isort lex_le (refresh_candidates (nd_view n) (p_src p)) with
+                          | [] => None
+                          | id :: _ => Some id
+                          end
+              | None => None
+              end
+  | None => None
+  end.
+
+Fixpoint drain (fuel : nat) (t : Z) (w : world) (acc : sched) (log : evlog) : option (world * sched * evlog) :=
+  match w_net w with
+  | [] => Some (w, acc, log)
+  | _ :: _ =>
+      match fuel with
+      | O => None
+      | S f =>
+          let s := SDeliver 0 (first_choice w 0) in
+          match step_world w t s with
+          | None => None
+          | Some (w', l) => drain f t w' (acc ++ [(t, s)]) (log ++ l)
+          end
+      end
+  end.
+
+Fixpoint do_steps (t : Z) (w : world) (mk : node -> option step) (l : list addr) (acc : sched) (log : evlog)
+  : option (world * sched * evlog) :=
+  match l with
+  | [] => Some (w, acc, log)
+  | a :: r =>
+      match match w_nodes w !! a with Some n => mk n | None => None end with
+      | None => do_steps t w mk r acc log
+      | Some s => match step_world w t s with
+                  | None => None
+                  | Some (w', lg) => do_steps t w' mk r (acc ++ [(t, s)]) (log ++ lg)
+                  end
+      end
+  end.
+
+Definition drain_fuel : nat := 2000.
+
+Definition auto_round (t : Z) (w : world) : option (world * sched * evlog) :=
+  match do_steps t w (fun n => if nd_gossip_on n then Some (SGossipTick (nd_addr n)) else None) (running_addrs w) [] [] with
+  | None => None
+  | Some (w1, s1, l1) =>
+  match drain drain_fuel t w1 s1 l1 with
+  | None => None
+  | Some (w2, s2, l2) =>
+  match do_steps t w2 (fun n => if nd_fd_on n then Some (SFdTick (nd_addr n) []) else None) (running_addrs w2) s2 l2 with
+  | None => None
+  | Some (w3, s3, l3) =>
+  match do_steps t w3 (fun n => if nd_retry_on n then Some (SRetry (nd_addr n) (map (fun s => (s, true)) (c_seeds (nd_cfg n)))) else None)
+                 (running_addrs w3) s3 l3 with
+  | None => None
+  | Some (w4, s4, l4) => drain drain_fuel t w4 s4 l4
+  end end end end.
+
+(** [n] canonical rounds at clocks t0, t0 + d, ...: the final world and, per round, its schedule and event log *)
+Fixpoint auto_rounds (n : nat) (t0 d : Z) (w : world) : option (world * list (sched * evlog)) :=
+  match n with
+  | O => Some (w, [])
+  | S n' => match auto_round t0 w with
+            | None => None
+            | Some (w1, s1, l1) => match auto_rounds n' (t0 + d)%Z d w1 with
+                                   | None => None
+                                   | Some (w2, rs) => Some (w2, (s1, l1) :: rs)
+                                   end
+            end
+  end.
+
+(** a fault phase followed by [n] canonical rounds *)
+Definition scenario (faults : sched) (n : nat) (t0 d : Z) : option (world * evlog * list (sched * evlog)) :=
+  match run empty_world faults with
+  | None => None
+  | Some (w1, l1) => match auto_rounds n t0 d w1 with
+                     | None => None
+                     | Some (w2, rs) => Some (w2, l1, rs)
+                     end
+  end.
+
+(** ** Witness configurations.  Addresses "127.0.0.1:1" .. "127.0.0.1:4"; node ids "s", "a", "j", "x". *)
+Definition loopback (port : N) : addr := [49; 50; 55; 46; 48; 46; 48; 46; 49; 58; port].
+Definition ad1 := loopback 49.
+Definition ad2 := loopback 50.
+Definition ad3 := loopback 51.
+Definition ad4 := loopback 52.
+
+(** (a) two healthy nodes, failure-detection timeout 300, rounds every 50 *)
+Definition wa_seed : cfg := Cfg [115] ad1 [ad1] 300 0.
+Definition wa_join : cfg := Cfg [106] ad2 [ad1] 300 0.
+Definition wa_faults : sched := [(1000, SStart wa_seed []); (1010, SStart wa_join [(ad1, true)])]%Z.
+Definition wa_rounds : nat := 40.
+Definition wa := scenario wa_faults wa_rounds 1050 50.
+
+(** (c) the same two nodes with SuspectConfirmDuration 100000: suspicion instead of removal *)
+Definition wc_seed : cfg := Cfg [115] ad1 [ad1] 300 100000.
+Definition wc_join : cfg := Cfg [106] ad2 [ad1] 300 100000.
+Definition wc_faults : sched := [(1000, SStart wc_seed []); (1010, SStart wc_join [(ad1, true)])]%Z.
+Definition wc := scenario wc_faults 40 1050 50.
+
+(** (b) failure detection off; seed s, members a and x; x crashes and is forced down at s; then j joins through a *)
+Definition wb_s : cfg := Cfg [115] ad1 [ad1; ad2] 0 0.
+Definition wb_a : cfg := Cfg [97] ad2 [ad1; ad2] 0 0.
+Definition wb_x : cfg := Cfg [120] ad3 [ad1] 0 0.
+Definition wb_j : cfg := Cfg [106] ad4 [ad2] 0 0.
+Definition wb_prefix : sched :=
+  [(1000, SStart wb_s []); (1010, SStart wb_a []); (1020, SStart wb_x [(ad1, true)])]%Z.
+(** after the prefix: 3 canonical rounds (convergence), then the crash, the force-down, delivery of its broadcast,
+    the join of j through a, and 30 more canonical rounds *)
+
+(** (d) failure detection off: j (the smaller address) joins the seed s, both converge, j leaves *)
+Definition wd_s : cfg := Cfg [115] ad2 [ad2] 0 0.
+Definition wd_j : cfg := Cfg [106] ad1 [ad2] 0 0.
+Definition wd_prefix : sched := [(1000, SStart wd_s []); (1010, SStart wd_j [(ad2, true)])]%Z.
+
+(** (e) failure detection off, two seeds s1, s2; j joins through s1 while s2 is cut off, crashes, restarts under the
+    same NodeID and joins through s2 *)
+Definition we_s1 : cfg := Cfg [115; 49] ad1 [ad1; ad2] 0 0.
+Definition we_s2 : cfg := Cfg [115; 50] ad2 [ad1; ad2] 0 0.
+Definition we_j : cfg := Cfg [106] ad3 [ad1; ad2] 0 0.
